@@ -107,17 +107,21 @@ def insertEdge (g : Graph) (a b : Int) : Outcome (Int × Graph) :=
 
 def dropVals (g : Graph) (i : Nat) : Graph := { g with vals := g.vals.filter (fun t => t.1 != i) }
 
+def eraseOut (g : Graph) (n e : Nat) : Graph :=
+  match g.slot n with
+  | .node o i => g.setSlot n (.node (o.erase e) i)
+  | _ => g
+
+def eraseInn (g : Graph) (n e : Nat) : Graph :=
+  match g.slot n with
+  | .node o i => g.setSlot n (.node o (i.erase e))
+  | _ => g
+
 /-- `GraphImpl::remove_edge` + `remove_all_values`: unlink from both chains, free the slot. -/
 def removeEdgeSlot (g : Graph) (e : Nat) : Graph :=
   match g.slot e with
   | .edge s d =>
-    let g1 := match g.slot s with
-      | .node o i => g.setSlot s (.node (o.erase e) i)
-      | _ => g
-    let g2 := match g1.slot d with
-      | .node o i => g1.setSlot d (.node o (i.erase e))
-      | _ => g1
-    let g3 := g2.setSlot e .free
+    let g3 := ((g.eraseOut s e).eraseInn d e).setSlot e .free
     ({ g3 with freeList := e :: g3.freeList }).dropVals e
   | _ => g
 
